@@ -1,9 +1,12 @@
 (* Properties/C15.v — statements only.  C15: Lua pattern matching follows the
    manual for every pattern and subject.
    Models: GV.Pattern.Build (builder.go), GV.Pattern.Machine (matcher.go,
-   pattern.go), GV.Pattern.Spec (manual 6.4.1 as a recursive matcher). *)
+   pattern.go), GV.Pattern.Spec (manual 6.4.1 as a structurally recursive
+   backtracking matcher), GV.Pattern.Drivers (matching.go / lstrlib drivers).
+   No axioms: every Print Assumptions below must say "Closed under the global context". *)
 From Coq Require Import ZArith NArith List Bool.
-From GV Require Import Pattern.Common Pattern.Build Pattern.Machine Pattern.Spec Pattern.Proofs.
+From GV Require Import Pattern.Common Pattern.Build Pattern.Machine Pattern.Spec Pattern.Drivers
+  Pattern.Proofs Pattern.Equiv Pattern.Refuted.
 Import ListNotations.
 Open Scope Z_scope.
 
@@ -15,3 +18,94 @@ Theorem C15_masks_correct :
   bs_mem lo c = class_spec k c /\ bs_mem up c = negb (class_spec k c).
 Proof. exact masks_correct. Qed.
 Print Assumptions C15_masks_correct.
+
+(* machine_equiv_spec, PARTIAL: for every item list made of single-class items
+   with any repetition suffix (none * + - ?) and (position) captures — no
+   back-references, no %b, no %f —, every subject, start position, end-anchor
+   setting and initial capture array, the trackback machine (budget 0 = none)
+   started as matchToEnd does halts for every fuel above some bound, never
+   panics, and answers "match ending at e" exactly when the manual-level
+   matcher Spec.M matches ending at e, "no match" exactly when Spec.M fails.
+   Missing for the full statement: %n, %b, %f items; equality of the capture
+   values (only the span is related); the find() loop over start positions;
+   the explicit fuel bound; budgets > 0. *)
+Theorem C15_machine_equiv_spec_partial :
+  forall items ea s init c0, simple items = true -> 0 <= init <= slen s ->
+  exists fuel, forall f, (fuel <= f)%nat ->
+    match M ea s items init caps0 with
+    | Some (e, _) => exists c', fst (run items ea s f 0 0 (start_state init c0)) = OMatch e c'
+    | None => exists c', fst (run items ea s f 0 0 (start_state init c0)) = ONoMatch c'
+    end.
+Proof. exact machine_equiv_spec_partial. Qed.
+Print Assumptions C15_machine_equiv_spec_partial.
+
+(* the hypothesis is satisfiable by patterns using every repetition kind and captures *)
+Theorem C15_simple_example :
+  simple [ICapStart 1; ISingle Star 5%N; ISingle Lazy 6%N; ICapEnd 1; ICapStart 2;
+          ISingle Plus 2%N; ISingle Opt 3%N; ISingle Once 1%N] = true.
+Proof. exact simple_example. Qed.
+Print Assumptions C15_simple_example.
+
+(* Spec sanity — leftmost: what Spec.find_at returns is a match of Spec.M at
+   the first start position that has one. *)
+Theorem C15_spec_find_leftmost :
+  forall ea s items n i st e c,
+  find_at ea s items n i = Some (st, e, c) ->
+  M ea s items st caps0 = Some (e, c) /\ i <= st < i + Z.of_nat n /\
+  forall j, i <= j < st -> M ea s items j caps0 = None.
+Proof. exact spec_find_leftmost. Qed.
+Print Assumptions C15_spec_find_leftmost.
+
+(* Spec sanity — greedy maximality / lazy minimality of a final repetition *)
+Theorem C15_spec_star_last_maximal :
+  forall s cls i c,
+  M false s [ISingle Star cls] i c = Some (i + Z.of_nat (span cls (suffix s i)), c).
+Proof. exact spec_star_last_maximal. Qed.
+Print Assumptions C15_spec_star_last_maximal.
+
+Theorem C15_spec_lazy_last_minimal :
+  forall s cls i c, M false s [ISingle Lazy cls] i c = Some (i, c).
+Proof. exact spec_lazy_last_minimal. Qed.
+Print Assumptions C15_spec_lazy_last_minimal.
+
+(* ---- refuted on the code as it stands (faithful IM; witnesses replayed on Go) *)
+
+(* no_panic of the machine is false: %1 naming a position capture slices s[start:-1] *)
+Theorem C15_machine_no_panic_refuted :
+  exists items ea s st fuel, fst (run items ea s fuel 0 0 st) = OPanic.
+Proof. exact machine_no_panic_refuted. Qed.
+Print Assumptions C15_machine_no_panic_refuted.
+
+Theorem C15_backref_position_capture_panics :
+  exists ptn s, exists p, build ptn = Ok p /\ a_panicked (api false p 1000 s 0 0) = true.
+Proof. exact backref_position_capture_panics. Qed.
+Print Assumptions C15_backref_position_capture_panics.
+
+(* gsub of matching.go differs from the manual: anchor ignored, count, empty result *)
+Theorem C15_gsub_ignores_anchor_refuted :
+  exists ptn s repl p, build ptn = Ok p /\
+    fst (fst (gsub_im p 1000 s 0 repl (-1))) = DVals [CStr [120; 120; 120]; CPos 3] /\
+    gsub_s p s repl (-1) = DVals [CStr [120; 97; 97]; CPos 1].
+Proof. exact gsub_ignores_anchor_refuted. Qed.
+Print Assumptions C15_gsub_ignores_anchor_refuted.
+
+Theorem C15_gsub_count_refuted :
+  exists ptn s repl p, build ptn = Ok p /\
+    fst (fst (gsub_im p 1000 s 0 repl (-1))) = DVals [CStr [120]; CPos 2] /\
+    gsub_s p s repl (-1) = DVals [CStr [120]; CPos 1].
+Proof. exact gsub_count_refuted. Qed.
+Print Assumptions C15_gsub_count_refuted.
+
+Theorem C15_gsub_empty_result_refuted :
+  exists ptn s p, build ptn = Ok p /\
+    fst (fst (gsub_im p 1000 s 0 [] (-1))) = DVals [CStr s; CPos 1] /\
+    gsub_s p s [] (-1) = DVals [CStr []; CPos 1].
+Proof. exact gsub_empty_result_refuted. Qed.
+Print Assumptions C15_gsub_empty_result_refuted.
+
+(* string.match with init beyond the end and a ^ pattern: Go slice panic, manual nil *)
+Theorem C15_match_beyond_end_refuted :
+  exists ptn s p, build ptn = Ok p /\
+    fst (match_im p 1000 s 0 4) = DPanic /\ match_s p s 4 = DNil.
+Proof. exact match_beyond_end_refuted. Qed.
+Print Assumptions C15_match_beyond_end_refuted.
